@@ -13,39 +13,62 @@ INVS = "NonNegative Conservation DepositsBacked VotesAtBoundary SupplyEqualsEqui
 
 
 def _validate(ctx, files, what, consts, groups=4):
-    """Trace validation is single-threaded per TLC run (-workers 1): validate the shard files in `groups` parallel runs."""
+    """Trace validation is single-threaded per TLC run (-workers 1): validate the shard files in parallel runs, `groups` at a
+    time.  A run holds its whole trace in memory (ndJsonDeserialize): big inputs are cut into more parts of <= ~45 MB."""
     import concurrent.futures, time
-    if sum(os.path.getsize(f) for f in files) < 25e6:
-        groups = 1
-    parts = [files[i::groups] for i in range(groups)]
+    total = sum(os.path.getsize(f) for f in files)
+    nparts = 1 if total < 25e6 else min(len(files), max(groups, int(total / 45e6) + 1))
+    parts = [files[i::nparts] for i in range(nparts)]
     parts = [p for p in parts if p]
+    if len(parts) > groups:
+        groups = 6
+    os.environ.setdefault("VERIF_TLC_HEAP", "3g")     # a part needs ~1 GB; the shared machine kills 8g JVMs under load
 
     def one(ip):
         i, p = ip
-        time.sleep(0.3 * i)        # ctx.validate names its work directory by the millisecond
+        time.sleep(0.3 * (i % groups))        # ctx.validate names its work directory by the millisecond
         return ctx.validate("TraceLedger", "TraceLedger.cfg", p, what="%s, part %d/%d" % (what, i + 1, len(parts)), timeout=3000, consts=consts)
-    with concurrent.futures.ThreadPoolExecutor(len(parts)) as ex:
+    with concurrent.futures.ThreadPoolExecutor(min(groups, len(parts))) as ex:
         return all(list(ex.map(one, enumerate(parts))))
 
 
-def run(ctx, check, exhaustive, negatives, sim, sim_quick, sim_thorough, depth, term=None):
+def run(ctx, check, exhaustive, negatives, sim, sim_quick, sim_thorough, depth, term=None, more=()):
     """exhaustive: cfg name per tier; negatives: [(cfg, expected violated invariant/property names)];
-    term: the term-boundary worlds - dict(graph={tier: cfg}, sim=cfg, sim_quick=n, sim_thorough=n, depth=d)"""
+    term: the term-boundary worlds - dict(graph={tier: cfg}, sim=cfg, sim_quick=n, sim_thorough=n, depth=d);
+    more: further state graphs of the mid-term world, each dict(name=.., quick=cfg, thorough=cfg) - other case classes
+    (asset categories and contract holders, block gas limits) whose product with the first graph would be too large"""
     ctx.build()
     consts = {"CHECK": check}
     # design side: the properties hold on the model with every deviation off ...
     cfg = exhaustive["quick" if ctx.quick() else "thorough"]
     dot = ctx.path("ledger_%s.dot" % check)
     ctx.tlc_exhaustive("MCLedger", "MCLedger_%s.cfg" % cfg, timeout=1500, dump=dot, coverage=False)
-    # ... and each known deviation of the implementation switched on makes TLC find the violation (negative control)
-    for ncfg, expect in negatives:
-        neg = ctx.tlc("MCLedger", "MCLedger_%s.cfg" % ncfg, timeout=600, expect_ok=False)
+    # ... and each known deviation of the implementation (or mutant of the design) switched on makes TLC find the violation
+    # (negative controls; independent runs, side by side)
+    import concurrent.futures, time
+
+    def negative(ia):
+        i, (ncfg, expect) = ia
+        time.sleep(0.2 * i)        # ctx.tlc names its metadata directory by the millisecond
+        return ncfg, expect, ctx.tlc("MCLedger", "MCLedger_%s.cfg" % ncfg, timeout=600, expect_ok=False, workers=4)
+    with concurrent.futures.ThreadPoolExecutor(max(1, len(negatives))) as ex:
+        negs = list(ex.map(negative, enumerate(negatives)))
+    for ncfg, expect, neg in negs:
         ctx.extra.setdefault("negative_controls", []).append(dict(cfg=ncfg, violated=neg["inv"]))
         if not neg["inv"] or (expect and neg["inv"] not in expect):
             raise Broken("negative control %s: expected a violation of %s, TLC reported %s\n%s" % (ncfg, expect, neg["inv"], neg["out"][-1500:]))
     # spec -> code: every transition of the graph on the real nodes (quick: a seeded sample of the tour's behaviours)
     files, summ = ctx.replay("ledger", graph=dot, shards=16, maxlen=24, name="ledger_%s_graph" % check, timeout=3000,
                              limit=3000 if ctx.quick() else 0)
+    mfiles, msumm = [], []
+    for m in more:
+        mcfg = m["quick" if ctx.quick() else "thorough"]
+        mdot = ctx.path("ledger_%s_%s.dot" % (check, m["name"]))
+        ctx.tlc_exhaustive("MCLedger", "MCLedger_%s.cfg" % mcfg, timeout=1500, dump=mdot, coverage=False)
+        f, sm = ctx.replay("ledger", graph=mdot, shards=16, maxlen=24, name="ledger_%s_%s" % (check, m["name"]), timeout=3000,
+                           limit=2000 if ctx.quick() else 0)
+        mfiles += f
+        msumm.append((m["name"], mcfg, sm))
     # wider universe (more accounts, amounts, kinds mixed, longer blocks): seeded simulation of the same model
     n = sim_quick if ctx.quick() else sim_thorough
     glob_ = ctx.tlc_simulate("MCLedger", "MCLedger_%s.cfg" % sim, num=n, depth=depth, prefix="led_" + check)
@@ -64,16 +87,22 @@ def run(ctx, check, exhaustive, negatives, sim, sim_quick, sim_thorough, depth, 
         files4, summ4 = ctx.replay("ledger", sim=glob3, shards=16, name="ledger_%s_termsim" % check, timeout=3000)
     # code -> spec: the monitor judges the log
     if ctx.quick():
-        ok = ok2 = ok3 = _validate(ctx, files + files2 + files3 + files4, "state graphs %s + simulated behaviours %s"
-                                   % (" ".join([cfg] + ([tcfg] if term else [])), " ".join([sim] + ([term["sim"]] if term else []))), consts)
+        ok = ok2 = ok3 = _validate(ctx, files + mfiles + files2 + files3 + files4, "state graphs %s + simulated behaviours %s"
+                                   % (" ".join([cfg] + [m[1] for m in msumm] + ([tcfg] if term else [])),
+                                      " ".join([sim] + ([term["sim"]] if term else []))), consts)
     else:
-        ok = _validate(ctx, files, "state graph %s" % cfg, consts)
+        ok = _validate(ctx, files + mfiles, "state graphs %s" % " ".join([cfg] + [m[1] for m in msumm]), consts)
         ok2 = _validate(ctx, files2, "simulated behaviours %s" % sim, consts)
         ok3 = _validate(ctx, files3 + files4, "term boundary: state graph %s + simulated behaviours %s" % (tcfg, term["sim"]), consts) if term else True
     ctx.cov["samples"] = summ["samples"]
     ctx.cov["exhaustive"] = summ["behaviours"] == summ["behaviours_total"]
     ctx.extra["graph"] = dict(cfg=cfg, nodes=summ["graph_nodes"], edges=summ["graph_edges"], behaviours=summ["behaviours"],
                               behaviours_in_tour=summ["behaviours_total"], real_blocks_mined=summ["steps"], accepted=ok, actions=summ["action_counts"])
+    for name, mcfg, sm in msumm:
+        ctx.cov["exhaustive"] = ctx.cov["exhaustive"] and sm["behaviours"] == sm["behaviours_total"]
+        ctx.extra["graph_" + name] = dict(cfg=mcfg, nodes=sm["graph_nodes"], edges=sm["graph_edges"], behaviours=sm["behaviours"],
+                                          behaviours_in_tour=sm["behaviours_total"], real_blocks_mined=sm["steps"], accepted=ok,
+                                          actions=sm["action_counts"])
     ctx.extra["simulation"] = dict(cfg=sim, behaviours=summ2["behaviours"], real_blocks_mined=summ2["steps"], accepted=ok2,
                                    actions=summ2["action_counts"])
     if term:
@@ -91,6 +120,13 @@ def run(ctx, check, exhaustive, negatives, sim, sim_quick, sim_thorough, depth, 
         "amounts in units of 10^15 mo with gas price 1-2 units (chain.TotalLEMO lowered to 10^6 LEMO, MinCandidateDeposit to 300 LEMO) so "
         "that sums fit TLC's 32-bit integers; a logged amount that is not a whole number of units is rejected by the monitor",
         "gasUsed and the miner's packaging decisions are adopted from the real log; the monitor recomputes every balance / tally / equity from them",
+        "issued assets: four assets of issuer a4 created by the setup chain - T (category 1), N (category 2, indivisible; ids N1, N2), "
+        "C (category 3, divisible, replenishable; ids C1, C2), G (category 3, not replenishable, FROZEN by the setup chain; id G1) - and up to "
+        "three asset ids created by issue transactions of the scenario; scenario blocks of the mid-term world are not stabilised, so only "
+        "the receivers of the setup chain's issue transactions can send an id (the processor demands the id's metadata in the sender's "
+        "stable account); replenishing under an id that belongs to another code is generated only towards a holder of that id",
+        "block gas: the header of a scenario block may name a small gas limit (40000 .. 300000, chosen by the spec action GasLimit; "
+        "otherwise the parent's, ample); which candidates fit is adopted from the real miner",
         "mid-term world: heights 4-5 of the genesis term with the real term / interim durations, blocks never confirmed",
         "term-boundary worlds (C05, C11): params.TermDuration = 5 or 6, InterimDuration = 1 or 2, params.TermRewardPoolTotal lowered to "
         "600000 LEMO; setup block 4 gives both genesis deputies a deposit, registers a4 and lets M1 and a4 vote for a3; the snapshot block "
